@@ -1,17 +1,20 @@
 """C12 - ISO-DEP exchanges each APDU exactly once or reports a tag error.
 
 L1: theorems of NfcVerif.Props.C12 about the executable model
-    NfcVerif.Model.IsoDep (transcription of IsoDepInitiator.exchange/_exchange,
-    Type4Tag.send_apdu, the FSC/FWT derivation; an ISO/IEC 14443-4 PICC; a
-    per-block fault script).
+    NfcVerif.Model.IsoDepV2 (transcription of the repaired IsoDepInitiator.exchange/
+    _exchange - fixes/C12 and fixes/C08/0010-0012 -, Type4Tag.send_apdu, the FSC/FWT/
+    S(WTX)-limit derivation) running against the ISO/IEC 14443-4 PICC and the
+    per-block fault script of NfcVerif.Model.IsoDep, or against any card.
 L2: the real Type4ATag/Type4BTag (activated over a fake clf whose exchange()
     is the scripted PICC simulator sims/iso_card.py) and the compiled model
     run the same command sequences under the same fault scripts; compared
     are results / exception classes, the PCD block number, every block sent,
     the card's execution log and the card's block number.
 L3: at-most-once execution, exact response or Type4TagCommandError, block
-    size bound, absorbed faults, S(WTX) timeout - judged on the real code
-    with the simulator only (no model involved).
+    size bound, absorbed faults, S(WTX) timeout, and the three wire-level bounds
+    that make every exchange end (waiting time granted per block, rounds per
+    retry loop, size / non-emptiness of a chained response) - judged on the real
+    code with the simulators only (no model involved).
 """
 import itertools
 import logging
@@ -26,16 +29,19 @@ THEOREMS = [
     "NfcVerif.C12.isodep_at_most_once",
     "NfcVerif.C12.isodep_response_exact",
     "NfcVerif.C12.isodep_session_inv",
-    "NfcVerif.C12.isodep_session_exact",
+    "NfcVerif.C12.isodep_presence_keeps_card",
+    "NfcVerif.C12.isodep_session_ops",
     "NfcVerif.C12.isodep_session_from_activation",
+    "NfcVerif.C12.isodep_session_latched",
     "NfcVerif.C12.isodep_refuses_after_error",
     "NfcVerif.C12.isodep_error_sets_flag",
     "NfcVerif.C12.isodep_send_apdu_exact",
     "NfcVerif.C12.isodep_error_kind",
     "NfcVerif.C12.isodep_terminates",
-    "NfcVerif.C12.isodep_error_kind_iso",
+    "NfcVerif.C12.isodep_terminates_activated",
     "NfcVerif.C12.isodep_absorbs",
     "NfcVerif.C12.isodep_absorbs_bound_tight",
+    "NfcVerif.C12.isodep_absorbs_before_0010",
     "NfcVerif.C12.isodep_block_bound",
     "NfcVerif.C12.isodep_block_bound_derived",
     "NfcVerif.C12.fsc_fwt_derivation",
@@ -97,21 +103,108 @@ def activate(cfg, script, sims, tt4, clfmod):
     return tag, air, card
 
 
-def run_real(cfg, script, cmds, sims, tt4, clfmod):
-    tag, air, card = activate(cfg, script, sims, tt4, clfmod)
+def wlim_spec(fwi):
+    """max_wtxm_sum = int(MAX_WTX_TIME / fwt): the waiting time one request with WTXM 59 gets at FWI 14, in units of FWT"""
+    return 59 * 2 ** (14 - (fwi if fwi <= 14 else 4))
+
+
+def wlim_of(dep, fwi):
+    """the limit the real initiator uses (a tree without the repair has none: the model is asked with the specified one)"""
+    v = getattr(dep, "max_wtxm_sum", None)
+    return v if isinstance(v, int) and not isinstance(v, bool) and v >= 0 else wlim_spec(fwi)
+
+
+def res_str(x):
+    """canonical result of transceive / exchange: octets, or whatever else came back (a failing input, not a crash)"""
+    if isinstance(x, (bytes, bytearray)):
+        return "ok " + hx(x)
+    return "ret " + repr(x)[:80].replace(" ", "_").replace("|", "/").replace(";", ",")
+
+
+def run_ops(tag, air, cmds, sims):
+    """commands (None = presence check) on an activated tag; every outcome becomes a string"""
     results = []
     air.marks = []           # number of blocks sent before each command
     for c in cmds:
         air.marks.append(len(air.trace))
         try:
             if c is None:
-                tag._dep.exchange(None)
-                results.append("ok -")
+                r = tag._dep.exchange(None)
+                results.append("ok -" if r is None else res_str(r))
             else:
-                results.append("ok " + hx(tag.transceive(bytearray(c))))
+                results.append(res_str(tag.transceive(bytearray(c))))
+        except sims.SimLimit:
+            results.append("exc SimLimit")
         except Exception as e:  # noqa
             results.append("exc " + exc_name(e))
-    return tag, air, card, results
+    return results
+
+
+def run_real(cfg, script, cmds, sims, tt4, clfmod):
+    tag, air, card = activate(cfg, script, sims, tt4, clfmod)
+    return tag, air, card, run_ops(tag, air, cmds, sims)
+
+
+def where(e):
+    import os
+    import traceback
+    tb = traceback.extract_tb(e.__traceback__)
+    return "%s:%d" % (os.path.basename(tb[-1].filename), tb[-1].lineno) if tb else "?"
+
+
+def is_wtx(b):
+    return len(b) > 1 and b[0] & 0xFE == 0xF2
+
+
+def judge_wire(ck, air, n_retry, lim, replay):
+    """the three wire-level bounds that make every exchange end, read off the blocks the reader was handed and the
+    answers it got (no model, no look at the initiator's state):
+      (a) S(WTX): a multiplier outside 1..59 is never granted; the multipliers granted while one block is outstanding
+          sum up to at most `lim`;
+      (b) one retry loop (the same I-block / R(ACK), R(NAK) in between) has at most n_retry + 1 rounds;
+      (c) response chaining: R(ACK) is only sent after a chained block that carried INF, and while the response
+          collected so far has at most 65538 octets."""
+    marks = set(getattr(air, "marks", []))
+    granted = 0
+    run_first, run_len = None, 0
+    acc, last_inf = 0, None
+    for i, ((out, _t), ans) in enumerate(zip(air.trace, air.answers)):
+        if i in marks:
+            run_first, run_len, acc, last_inf, granted = None, 0, 0, None, 0
+        if is_wtx(out):
+            m = out[1] & 0x3F
+            if m == 0 or m > 59:
+                ck.fail("isodep-wtx-rfu-multiplier-granted", "S(WTX) request %s with RFU multiplier %d was granted (block %d)"
+                        % (out.hex(), m, i), replay)
+                return
+            granted += m
+            if granted > lim:
+                ck.fail("isodep-wtx-unlimited", "waiting time granted for one block: %d units of FWT (block %d), limit %d - a card that "
+                        "keeps asking keeps the reader busy for ever" % (granted, i, lim), replay)
+                return
+        else:
+            granted = 0
+            is_nak = len(out) == 1 and out[0] & 0xFE == 0xB2
+            if run_first is not None and (out == run_first or (is_nak and not (len(run_first) == 1 and run_first[0] & 0xFE == 0xB2))):
+                run_len += 1
+            else:
+                # a new retry loop starts with this block
+                if len(out) == 1 and out[0] & 0xFE == 0xA2 and i not in marks:
+                    if last_inf == 0:
+                        ck.fail("isodep-chain-unlimited", "R(ACK) (block %d) asks for more after a chained block without INF" % i, replay)
+                        return
+                    if acc > 65538:
+                        ck.fail("isodep-chain-unlimited", "R(ACK) (block %d) asks for more although %d response octets were already "
+                                "collected" % (i, acc), replay)
+                        return
+                run_first, run_len = out, 1
+            if run_len > n_retry + 1:
+                ck.fail("isodep-retransmit-unlimited", "block %s sent %d times (with R(NAK) rounds) in one retry loop, budget %d "
+                        "(block %d)" % (run_first.hex(), run_len, n_retry, i), replay)
+                return
+        if isinstance(ans, bytes) and ans and ans[0] & 0xEE == 0x02:
+            acc += len(ans) - 1
+            last_inf = len(ans) - 1
 
 
 def canon(results, dep, trace, log, bn):
@@ -172,22 +265,37 @@ def run(ck):
     def one(cfg, script, cmds, bucket, exhaustive_part=False):
         if len(ck.fails) >= 50:
             return None      # enough failing inputs recorded (Check keeps 50); do not grind through a broken tree
+        replay = {"config": cfg.as_dict(), "script": script, "commands": [None if c is None else bytes(c).hex() for c in cmds]}
+        try:
+            return one_(cfg, script, cmds, bucket, replay)
+        except sims.SimLimit as e:
+            ck.fail("isodep-endless-exchange", "activation / bookkeeping: %s" % e, replay)
+        except Exception as e:  # noqa - the code under test did something the bookkeeping below did not foresee
+            ck.fail("isodep-unexpected-behaviour", "%s: %s (%s)" % (type(e).__name__, e, where(e)), replay)
+        return None
+
+    def one_(cfg, script, cmds, bucket, replay):
         tag, air, card, results = run_real(cfg, script, cmds, sims, tt4, nfc.clf)
         dep = tag._dep
         trace = [b for b, _ in air.trace]
         real = canon(results, dep, trace, card.log, card.bn)
+        replay["impl"] = real
         used = script[:air.pos]
         chained = any(c is not None and len(c) > dep.miu for c in cmds) or cfg.rlen + 2 > cfg.chunk
         nontrivial = air.faults_used > 0 or chained or card.wtx_sent > 0
-        replay = {"config": cfg.as_dict(), "script": script, "commands": [None if c is None else bytes(c).hex() for c in cmds],
-                  "impl": real}
         ck.case((cfg.key(), used, tuple(cmds)), nontrivial, bucket,
                 sample=replay if (nontrivial and (len(ck.samples) < 2 or rng.random() < 0.0005)) else None)
-        line = "seq %d %d %d %s %s %s" % (dep.miu, dep.n_retry_nak, dep.n_retry_ack, cfg.card_words(), script or "-",
-                                         ",".join("N" if c is None else hx(c) for c in cmds))
+        fwi_eff = cfg.fwi if cfg.fwi <= 14 else 4
+        line = "seq %d %d %d %d %s %s %s" % (dep.miu, dep.n_retry_nak, dep.n_retry_ack, wlim_of(dep, cfg.fwi), cfg.card_words(),
+                                            script or "-", ",".join("N" if c is None else hx(c) for c in cmds))
         reqs.append((line, real, replay))
 
         # ---- L3 oracle, independent of the model
+        for r in results:
+            if r.startswith("ret "):
+                ck.fail("isodep-bad-return", "transceive returned %s" % r[4:], replay)
+            if r == "exc SimLimit":
+                ck.fail("isodep-endless-exchange", "transceive did not return within %d block exchanges against the ISO card" % air.cap, replay)
         fsc = min(FSC_TABLE[min(cfg.fsci, 8)], cfg.max_send)
         for b in trace:
             if len(b) + 2 > fsc:
@@ -209,6 +317,8 @@ def run(ck):
         app = sims.tie_app(cfg.rlen, cfg.sw)
         for c, r in zip(cmds, results):
             if c is None:
+                if r != "ok -" and r[4:] not in ("TimeoutError", "TransmissionError", "ProtocolError"):
+                    ck.fail("isodep-presence-raw-exception", "presence check ended in %s" % r, replay)
                 continue
             if len(c) == 0:
                 continue     # an empty byte string is not a command APDU (tie only)
@@ -221,31 +331,47 @@ def run(ck):
                            "isodep-wtx-response-chain" if cfg.wtx[2] > 0 and card.wtx_sent > 0 else "isodep-wrong-response")
                     ck.fail(key, "command %s returned %s, the card %s" % (
                         c.hex(), got.hex(), "answered %s" % want[-1].hex() if want else "never executed it"), replay)
-            else:
+            elif r.startswith("exc"):
                 name = r[4:]
                 if name not in ("TagCommandError(0)", "TagCommandError(-1)", "TagCommandError(-2)"):
                     key = "isodep-wtx-raw-exception" if card.wtx_sent > 0 else "isodep-raw-exception"
                     ck.fail(key, "transceive(%s) raised %s" % (c.hex(), name), replay)
                 failed_before = True
-        # after an unrecoverable error no further command may reach the card (block numbers are undefined)
+        # after an unrecoverable error no further command may reach the card (block numbers are undefined) - presence
+        # checks in between are sent (one R(NAK) each) and change nothing
         marks = air.marks + [len(air.trace)]
         for j in range(first_fail + 1, len(cmds)):
             if cmds[j] is not None and (marks[j + 1] != marks[j] or results[j] != results[first_fail]):
                 ck.fail("isodep-command-after-error", "command %d sent %d block(s) and ended in %r after command %d had failed with %r"
                         % (j, marks[j + 1] - marks[j], results[j], first_fail, results[first_fail]), replay)
-        # absorbed faults: k errors in one retry loop need 2k-1 <= n_retry (a retransmission after R(ACK) also counts)
-        if len(cmds) == 1 and cmds[0] and "p" not in used \
-                and 2 * air.faults_used - 1 <= dep.n_retry_nak and not results[0].startswith("ok"):
+        for j, c in enumerate(cmds):
+            if c is None and [b for b, _ in air.trace[marks[j]:marks[j + 1]]] not in ([b"\xb2"], [b"\xb3"]):
+                ck.fail("isodep-presence-blocks", "presence check %d sent %s" % (j, [b.hex() for b, _ in air.trace[marks[j]:marks[j + 1]]]), replay)
+        # the card keeps to what ISO/IEC 14443-4 allows: multiplier 1..59, waiting time per block within the reader's
+        # limit, response of at most 65539 octets (non-empty chained blocks: chunk >= 1 always)
+        lim = wlim_spec(cfg.fwi)
+        m = cfg.wtxm & 0x3F
+        card_ok = (max(cfg.wtx) == 0 or (1 <= m <= 59 and max(cfg.wtx) * m <= lim)) and cfg.rlen + len(cfg.sw) <= 65539
+        n_retry = min(dep.n_retry_nak, dep.n_retry_ack)
+        # absorbed faults: k errors in one exchange need 2k <= n_retry (a block lost on its way to the card costs the
+        # R(NAK) and the retransmission after R(ACK), both are counted since fixes/C08/0010)
+        if len(cmds) == 1 and cmds[0] and "p" not in used and card_ok \
+                and 2 * air.faults_used <= n_retry and not results[0].startswith("ok"):
             key = ("isodep-wtx-raw-exception" if card.wtx_sent > 0 and not results[0].startswith("exc TagCommandError") else
                    "isodep-wtx-response-chain" if air.faults_used == 0 and card.wtx_sent > 0 and cfg.wtx[2] > 0 else
                    "isodep-not-absorbed")
-            ck.fail(key, "%d fault(s) with retry budget %d ended in %s" % (air.faults_used, dep.n_retry_nak, results[0]), replay)
+            ck.fail(key, "%d fault(s) with retry budget %d ended in %s" % (air.faults_used, n_retry, results[0]), replay)
+        # a request with an RFU multiplier that reached the reader ends the exchange with PROTOCOL_ERROR
+        if len(cmds) == 1 and cmds[0] and not (1 <= m <= 59) and any(a == bytes([0xF2, cfg.wtxm]) for a in air.answers) \
+                and results[0] != "exc TagCommandError(-2)":
+            ck.fail("isodep-wtx-rfu-multiplier-granted", "card asked for waiting time with RFU multiplier %d, result %s" % (m, results[0]), replay)
         # timeouts handed to the reader
-        fwt = fwt_of(cfg.fwi if cfg.fwi <= 14 else 4)
+        fwt = fwt_of(fwi_eff)
         for b, t in air.trace:
             want_t = (b[1] & 0x3F) * fwt if len(b) > 1 and b[0] & 0xFE == 0xF2 else fwt + 49152 / 13.56E6
-            if t is None or abs(t - want_t) > 1e-9:
+            if t is None or isinstance(t, bool) or not isinstance(t, (int, float)) or abs(t - want_t) > 1e-9:
                 ck.fail("isodep-wrong-timeout", "block %s sent with timeout %r, expected %r" % (b.hex(), t, want_t), replay)
+        judge_wire(ck, air, min(int(1 / fwt), 5), lim, replay)
         return air, card, results
 
     def legs_of(cfg, cmds):
@@ -262,24 +388,44 @@ def run(ck):
 
     # ------------------------------------------------------------------ activation parameters (exhaustive)
     act_reqs = []
+
+    def act_real(cfg, rp):
+        """activate; canonical 'ok miu n_nak n_ack pni max_wtxm_sum' (the last one 'none' on a tree without the limit)"""
+        try:
+            tag, air, card = activate(cfg, "", sims, tt4, nfc.clf)
+            dep = tag._dep
+            raw = air.ats if cfg.kind == "A" else bytes(tag.target.sensb_res)
+            w = getattr(dep, "max_wtxm_sum", None)
+            return "ok %d %d %d %d %s" % (dep.miu, dep.n_retry_nak, dep.n_retry_ack, dep.pni, "none" if w is None else "%d" % w), dep, raw
+        except Exception as e:  # noqa
+            if rp is not None:
+                ck.fail("isodep-activation-raises", "activation raised %s: %s (%s)" % (exc_name(e), e, where(e)), rp)
+            return "exc " + exc_name(e), None, (cfg.ats if cfg.ats is not None else b"")
+
+    def act_oracle(dep, fsci, fwi, ms, what, rp):
+        want_fsc = min(FSC_TABLE[min(fsci, 8)], ms)
+        if dep.miu != want_fsc - 3:
+            ck.fail("isodep-fsc-derivation", "%s: miu %r, expected %d" % (what, dep.miu, want_fsc - 3), rp)
+        f = fwt_of(fwi if fwi <= 14 else 4)
+        if abs(dep.fwt - f) > 1e-12 or dep.n_retry_nak != min(int(1 / f), 5) or dep.n_retry_ack != dep.n_retry_nak:
+            ck.fail("isodep-fwt-derivation", "%s: fwt %r retry %r/%r" % (what, dep.fwt, dep.n_retry_nak, dep.n_retry_ack), rp)
+        w = getattr(dep, "max_wtxm_sum", None)
+        if w != wlim_spec(fwi):
+            ck.fail("isodep-wtx-limit-derivation", "%s: waiting time limit per block %r, expected %d (WTXM 59 at FWI 14 "
+                    "in units of this card's FWT)" % (what, w, wlim_spec(fwi)), rp)
+
     limits = [5, 16, 17, 31, 64, 255, 256, 300] if ck.thorough else [16, 64, 256, 300]
     for kind in "AB":
         for fsci in range(16):
             for fwi in range(16):
                 for ms in limits:
                     cfg = Cfg(kind, fsci, fwi, ms)
-                    tag, air, card = activate(cfg, "", sims, tt4, nfc.clf)
-                    dep = tag._dep
-                    real = "ok %d %d %d %d" % (dep.miu, dep.n_retry_nak, dep.n_retry_ack, dep.pni)
-                    raw = air.ats if kind == "A" else bytes(tag.target.sensb_res)
-                    act_reqs.append(("act %s %s %d" % (kind, hx(raw), ms), real, {"kind": kind, "fsci": fsci, "fwi": fwi, "max_send": ms}))
+                    rp = {"kind": kind, "fsci": fsci, "fwi": fwi, "max_send": ms}
+                    real, dep, raw = act_real(cfg, rp)
+                    act_reqs.append(("act %s %s %d" % (kind, hx(raw), ms), real, rp))
                     ck.case(("act", kind, fsci, fwi, ms), True, "activation:" + kind)
-                    want_fsc = min(FSC_TABLE[min(fsci, 8)], ms)
-                    if dep.miu != want_fsc - 3:
-                        ck.fail("isodep-fsc-derivation", "%s fsci %d limit %d: miu %d" % (kind, fsci, ms, dep.miu), act_reqs[-1][2])
-                    f = fwt_of(fwi if fwi <= 14 else 4)
-                    if abs(dep.fwt - f) > 1e-12 or dep.n_retry_nak != min(int(1 / f), 5) or dep.n_retry_ack != dep.n_retry_nak:
-                        ck.fail("isodep-fwt-derivation", "%s fwi %d: fwt %r retry %d" % (kind, fwi, dep.fwt, dep.n_retry_nak), act_reqs[-1][2])
+                    if dep is not None:
+                        act_oracle(dep, fsci, fwi, ms, "%s fsci %d fwi %d limit %d" % (kind, fsci, fwi, ms), rp)
 
     # every legal ATS shape: TL only; T0 with any subset of TA/TB/TC; historical bytes; x FSCI 0..15 x FWI x device limit,
     # and an exchange that follows the activation must respect the frame size the card announced
@@ -302,18 +448,12 @@ def run(ck):
                                         rng.randrange(256) if pc else None, hist)
         for ms in ([256, 20] if not ck.thorough else [256, 300, 20, 16]):
             cfg = Cfg("A", afsci, afwi, ms, ats=ats)
-            tag, air, card = activate(cfg, "", sims, tt4, nfc.clf)
-            dep = tag._dep
-            real = "ok %d %d %d %d" % (dep.miu, dep.n_retry_nak, dep.n_retry_ack, dep.pni)
             rp = {"kind": "A", "ats": ats.hex(), "fsci_announced": afsci, "fwi_announced": afwi, "max_send": ms}
+            real, dep, _raw = act_real(cfg, rp)
             act_reqs.append(("act A %s %d" % (hx(ats), ms), real, rp))
             ck.case(("ats", ats, ms), True, "activation:ATS shape")
-            want_fsc = min(FSC_TABLE[min(afsci, 8)], ms)
-            if dep.miu != want_fsc - 3:
-                ck.fail("isodep-fsc-derivation", "ATS %s (FSCI %d) limit %d: miu %d, expected %d" % (ats.hex(), afsci, ms, dep.miu, want_fsc - 3), rp)
-            f = fwt_of(afwi if afwi <= 14 else 4)
-            if abs(dep.fwt - f) > 1e-12 or dep.n_retry_nak != min(int(1 / f), 5):
-                ck.fail("isodep-fwt-derivation", "ATS %s (FWI %d): fwt %r retry %d" % (ats.hex(), afwi, dep.fwt, dep.n_retry_nak), rp)
+            if dep is not None:
+                act_oracle(dep, afsci, afwi, ms, "ATS %s (FSCI %d, FWI %d) limit %d" % (ats.hex(), afsci, afwi, ms), rp)
         # a following exchange: chained command and response, one lost block; blocks <= FSC of the card (oracle in one())
         if hl == hists[0] and (fwi in (4, 10) or fsci is None):
             fsc = FSC_TABLE[min(afsci, 8)]
@@ -322,12 +462,7 @@ def run(ck):
     # truncated / inconsistent ATS (T0 announces bytes that are missing, empty answer): compared with the model only
     for raw in [b"", b"\x02\x20", b"\x02\x35", b"\x03\x30\x80", b"\x03\x71\x80", b"\x02\x7f", b"\x01\x05\x00\x00"]:
         cfg = Cfg("A", 2, 4, 256, ats=raw)
-        try:
-            tag, air, card = activate(cfg, "", sims, tt4, nfc.clf)
-            dep = tag._dep
-            real = "ok %d %d %d %d" % (dep.miu, dep.n_retry_nak, dep.n_retry_ack, dep.pni)
-        except Exception as e:  # noqa
-            real = "exc " + exc_name(e)
+        real, dep, _raw = act_real(cfg, None)
         act_reqs.append(("act A %s 256" % hx(raw), real, {"kind": "A", "ats": raw.hex(), "max_send": 256}))
         ck.case(("ats-malformed", raw), True, "activation:ATS truncated")
 
